@@ -3,6 +3,7 @@ package props
 import (
 	"fmt"
 	"reflect"
+	"sort"
 	"strconv"
 	"strings"
 	"testing"
@@ -182,6 +183,16 @@ func (r *refRegistry) checkQueries(c godi.Collection) *Failure {
 				ks = fmt.Sprint(g.Key)
 			}
 			key = fmt.Sprintf("%v|%s||%s", g.Type, ks, lifeName(int(g.Lifetime)))
+		}
+		// the identity ToSlice reports is the identity the queries know (group members excepted: a
+		// member is addressed through its group)
+		if g.Group == "" {
+			if g.Key == nil && !c.Contains(g.Type) {
+				return fail("C17", "queries", "toslice-vs-contains", "ToSlice() lists %v, Contains(%v) is false", g.Type, g.Type)
+			}
+			if g.Key != nil && !c.ContainsKeyed(g.Type, g.Key) {
+				return fail("C17", "queries", "toslice-vs-contains-keyed", "ToSlice() lists (%v, %#v), ContainsKeyed with that very type and key is false", g.Type, g.Key)
+			}
 		}
 		if want[key] == 0 {
 			return fail("C17", "queries", "toslice-content", "ToSlice() lists %s, which the reference registry does not hold (reference: %v)", key, want)
@@ -493,8 +504,80 @@ func propC17Registry(col *evid.Collector, maxSteps int) func(rt *rapid.T) {
 			steps = append(steps, fmt.Sprintf("remove(%s)", d.Ident))
 			member()
 		}
+		// remove what ToSlice lists, with the very type and key it reports: the only way to address
+		// an initializer function that was registered without a name, and the way for names that
+		// are not the pool's "a"
+		doRemoveListed := func() {
+			if ref.tainted != "" {
+				return
+			}
+			type cand struct {
+				d   *godi.Descriptor
+				ref int // index into ref.descs
+			}
+			var cands []cand
+			var unnamed []*godi.Descriptor
+			for _, d := range coll.ToSlice() {
+				if d == nil || d.Group != "" || d.Key == nil {
+					continue
+				}
+				if _, isName := d.Key.(string); !isName {
+					if d.VoidReturn {
+						unnamed = append(unnamed, d)
+					}
+					continue
+				}
+				for i, rd := range ref.descs {
+					if rd.Ident.Group == "" && rd.Ident.Key != "" && rd.Ident.Key == d.Key.(string) && kit.RType(rd.Ident.T) == d.Type {
+						cands = append(cands, cand{d, i})
+					}
+				}
+			}
+			// generated keys are handed out in increasing order (printed in base 36): the i-th unnamed
+			// initializer of the reference is the i-th by generated key
+			sort.Slice(unnamed, func(i, j int) bool {
+				a, b := fmt.Sprint(unnamed[i].Key), fmt.Sprint(unnamed[j].Key)
+				return len(a) < len(b) || len(a) == len(b) && a < b
+			})
+			var unnamedRef []int
+			for i, rd := range ref.descs {
+				if rd.Void && rd.Ident.Key == "" {
+					unnamedRef = append(unnamedRef, i)
+				}
+			}
+			if len(unnamed) == len(unnamedRef) {
+				for i, d := range unnamed {
+					cands = append(cands, cand{d, unnamedRef[i]})
+				}
+			}
+			if len(cands) == 0 {
+				return
+			}
+			c := cands[rapid.IntRange(0, len(cands)-1).Draw(rt, "listed")]
+			rd := ref.descs[c.ref]
+			coll.RemoveKeyed(c.d.Type, c.d.Key)
+			if rd.Void && rd.Ident.Key == "" {
+				ref.descs = append(ref.descs[:c.ref:c.ref], ref.descs[c.ref+1:]...)
+				delete(ref.regs, rd.Reg)
+				steps = append(steps, fmt.Sprintf("removeKeyed(unnamed initializer r%d, the key ToSlice reports)", rd.Reg))
+			} else {
+				ref.remove(rd.Ident)
+				steps = append(steps, fmt.Sprintf("removeKeyed(%s, as ToSlice reports it)", rd.Ident))
+			}
+			removed = true
+			if built {
+				nt = true
+			}
+		}
 		nsteps := rapid.IntRange(1, maxSteps).Draw(rt, "nsteps")
 		for i := 0; i < nsteps && f == nil; i++ {
+			if rapid.IntRange(0, 11).Draw(rt, "removeListed") == 0 {
+				doRemoveListed()
+				if f == nil && ref.tainted == "" {
+					f = ref.checkQueries(coll)
+				}
+				continue
+			}
 			if rapid.IntRange(0, 9).Draw(rt, "replace") == 0 {
 				doReplace()
 				continue
